@@ -87,8 +87,8 @@ theorem delInternal_lclusM (F : Nat) (e : Est) (hinv : EInv F (fun _ => True) e)
 
 /-- refinement keeps every cluster outside the `n` largest together -/
 theorem refine_coarsens (hpol : ∀ cfg, (pol cfg).Valid) (F : Nat) (e : Est) (hinv : EInv F (fun _ => True) e)
-    (n : Int) (data : List Row) (im : Nat) (hdata : ∀ r ∈ data, r.length = F) :
-    Coarsens ((e.st.sortedClus.drop n.toNat : List Clu) : Multiset Clu) (refine pol e n data im).1.st.lclusM := by
+    (n : Int) (data : List Row) (im : Nat) (srt : Bool) (hdata : ∀ r ∈ data, r.length = F) :
+    Coarsens ((e.st.sortedClus.drop n.toNat : List Clu) : Multiset Clu) (refine pol e n data im srt).1.st.lclusM := by
   have hall : ∀ (M : Multiset Clu), M = e.st.lclusM →
       Coarsens ((e.st.sortedClus.drop n.toNat : List Clu) : Multiset Clu) M := by
     intro M hM a ha
@@ -113,7 +113,7 @@ theorem refine_coarsens (hpol : ∀ cfg, (pol cfg).Valid) (F : Nat) (e : Est) (h
       · split
         · exact hall _ hl0
         · rename_i groups hg
-          obtain ⟨hne, singles, hflat, hids, hsing⟩ := refineGroups_spec _ _ _ _ _ hg
+          obtain ⟨hne, singles, hflat, hids, hsing⟩ := refineGroups_spec _ _ _ _ _ _ hg
           have hsorted := sortedClus_coe e0.st hinv0.ok
           have hmemdrop : ∀ u ∈ e0.st.sortedClus.drop n.toNat, u ∈ e0.st.lclusM := fun u hu => by
             rw [← hsorted]; exact List.mem_of_mem_drop hu
